@@ -81,7 +81,7 @@ CLAIMS.update({
    text="Theorems C09_* (props/C09.v): every fill of every run lies in a round on its own market, on a running market, in a session CONFIGURED with execution - for every set of events "
         "(trading halts included); a round follows an accepted request iff the session's switch is on; without placement the order phase is skipped; collect keeps at most maxNormalOrders "
         "non-empty batches along one walk of the permuted agents. The consultation stream (who is asked, in which phase), the rounds and the switches are compared with the real runner on "
-        "every generated simulation; the monitor checks caps, at-most-once, HFT phases (rate 0 and 1), and round-follows-request against the switch seen at the callback.",
+        "every generated simulation; the monitor checks caps, at-most-once, HFT phases (rate 0 and 1), and round-follows-request against the switch seen at the callback. Within a step (theories/SimConsult.v): the agents asked are a prefix of the permuted list, in that order, each once, for normal and high-frequency agents; handling orders asks nobody.",
    note=S_NOTE + "'In random order' and 'with the configured probability' are properties of random.Random (oracle): the model says which draw decides what."),
  "C10": dict(level="proof", suites=["S"], design="5/C10",
    technique="Coq invariant produced = delivered ++ pending lifted over the whole run + differential correspondence of the delivery stream",
